@@ -380,7 +380,7 @@ def _split_native(i):
         args = (0.0, 0.0)
     else:
         args = (np.full(len(peaks), i["threshold"]), False, False, 0)
-    new = splitter._split_peaks(split_finder=splitter.find_split_points, peaks=peaks, is_split=is_split, orig_dt=1,
+    new = splitter._split_peaks(split_finder=splitter.find_split_points, peaks=peaks, is_split=is_split, orig_dt=i.get("orig_dt", 1),
                                 min_area=0, args_options=args, result_dtype=peaks.dtype)
     return dict(children=new, is_split=is_split)
 
@@ -416,29 +416,36 @@ def _split_gen(rng, tier):
     strax = _strax()
     dt = strax.peak_dtype(n_channels=2, n_sum_wv_samples=8)
     alphabet = (0, 1, 3, 6)
-    def mk(ws):
+    def mk(ws, pdt=1):
         peaks = np.zeros(len(ws), dtype=dt)
         t = 100
         for k, w in enumerate(ws):
-            peaks[k]["time"], peaks[k]["length"], peaks[k]["dt"] = t, len(w), 1
+            peaks[k]["time"], peaks[k]["length"], peaks[k]["dt"] = t, len(w), pdt
             peaks[k]["data"][: len(w)] = w
             peaks[k]["area"] = sum(w)
-            t += len(w) + 5
+            t += len(w) * pdt + 5
         return peaks
     for n in (3, 4, 5):
         for w in itertools.product(alphabet, repeat=n):
             for algo in ("local_minimum", "natural_breaks"):
                 yield dict(peaks=mk([w]), algorithm=algo, threshold=0.2)
+    # down-sampled parents: the parent's dt is a multiple of the records' dt (orig_dt) the children are given
+    for w in itertools.product(alphabet, repeat=4):
+        for pdt, odt in ((2, 1), (4, 2), (4, 1), (2, 2)):
+            yield dict(peaks=mk([w], pdt), algorithm="local_minimum", threshold=0.2, orig_dt=odt)
     for _ in range(200 if tier == "quick" else 20000):
         ws = [tuple(rng.choice(alphabet) for _ in range(rng.randint(2, 8))) for _ in range(rng.randint(1, 3))]
-        yield dict(peaks=mk(ws), algorithm=rng.choice(("local_minimum", "natural_breaks")), threshold=rng.choice((0.1, 0.3, 0.6)))
+        pdt, odt = rng.choice(((1, 1), (1, 1), (2, 1), (4, 2), (6, 3), (4, 1)))
+        yield dict(peaks=mk(ws, pdt), algorithm=rng.choice(("local_minimum", "natural_breaks")), threshold=rng.choice((0.1, 0.3, 0.6)),
+                   orig_dt=odt)
 
 
 split_peaks = Contract(
-    FS, "PeakSplitter._split_peaks", params=dict(peaks=RowsT(), algorithm="V", threshold="real"),
+    FS, "PeakSplitter._split_peaks", params=dict(peaks=RowsT(), algorithm="V", threshold="real", orig_dt="V"),
     ensures=_split_ens, raises={},
     harness=Harness(native=_split_native, gen=_split_gen,
-                    scope="all waveforms over {0,1,3,6} of 3..5 samples (exhaustive) x both split finders + random 1..3 peaks of 2..8 samples",
+                    scope="all waveforms over {0,1,3,6} of 3..5 samples (exhaustive) x both split finders; all of 4 samples on down-sampled parents "
+                          "(dt 2, 4 with records' dt 1, 2) + random 1..3 peaks of 2..8 samples with parent dt / records' dt in {1/1, 2/1, 4/2, 6/3, 4/1}",
                     nontrivial=lambda i: True))
 
 
@@ -466,3 +473,118 @@ PK.symmetric_moving_average.harness = Harness(
     variants=[("py_func", _sma_native(lambda a, w: _sma().py_func(a, w)))],
     gen=_sma_gen, scope="all waveforms over {0,1,4} of <=5 samples x wing widths 0..6 (exhaustive) + random <=12 samples, wings <=14",
     nontrivial=lambda i: len(i["a"]) >= 2 and i["wing_width"] >= 1)
+
+
+# ---- store_downsampled_waveform: smallest factor that fits, blocks summed, dt scaled, only a fractional tail dropped -----------
+FPP = "strax/processing/peak_properties.py"
+
+
+def _sdw_native(i):
+    strax = _strax()
+    p = np.zeros(1, dtype=strax.peak_dtype(n_channels=2, n_sum_wv_samples=i["n_samples"]))
+    p["time"], p["dt"], p["length"] = 1000, i["dt"], len(i["waveform"])
+    buf = np.array(i["waveform"], dtype=np.float32)
+    strax.store_downsampled_waveform(p[0], buf)
+    return dict(length=int(p[0]["length"]), dt=int(p[0]["dt"]), data=p[0]["data"].copy())
+
+
+def _sdw_ens(S, a, r):
+    w = np.array(_unw(a.waveform), dtype=np.float64)
+    n, L = a.n_samples, len(w)
+    factor = -(-L // n) if L else 1          # the smallest integer factor for which the waveform fits into n samples
+    r = _unw(r)
+    if factor <= 1:
+        want_len, want_dt, want = L, a.dt, w
+    else:
+        want_len, want_dt = L // factor, a.dt * factor
+        want = w[: want_len * factor].reshape(-1, factor).sum(axis=1)
+    return [("the waveform is down-sampled by the smallest factor that makes it fit (none if it fits), dt is scaled by it",
+             r["length"] == want_len and r["dt"] == want_dt),
+            ("every stored sample is the sum of its block of original samples; only a fractional last block is dropped",
+             r["length"] == want_len and np.allclose(r["data"][: want_len], want) and not np.any(r["data"][want_len:]))]
+
+
+def _unw(v):
+    if hasattr(v, "arr") and hasattr(v, "n"):
+        return v.arr
+    if isinstance(v, dict):
+        return {k: _unw(x) for k, x in v.items()}
+    if isinstance(v, (list, tuple)):
+        return type(v)(_unw(x) for x in v)
+    return v
+
+
+def _sdw_gen(rng, tier):
+    for n in (2, 3, 4):
+        for L in range(1, 4 * n + 2):
+            for dt in (1, 10):
+                yield dict(n_samples=n, dt=dt, waveform=[float((3 * k) % 5 + 1) for k in range(L)])
+    for _ in range(200 if tier == "quick" else 5000):
+        n = rng.randint(2, 6)
+        yield dict(n_samples=n, dt=rng.choice((1, 2, 10)), waveform=[float(rng.randint(0, 9)) for _k in range(rng.randint(1, 5 * n))])
+
+
+store_downsampled_waveform = Contract(
+    FB, "store_downsampled_waveform", params=dict(n_samples="int", dt="int", waveform="V"), ensures=_sdw_ens, raises={},
+    harness=Harness(native=_sdw_native, gen=_sdw_gen,
+                    scope="peak buffers of 2..4 samples x every waveform length 1..4n+1 (so every exact multiple and its neighbours) x dt "
+                          "in {1,10} + random buffers of 2..6 samples, lengths up to 5n",
+                    nontrivial=lambda i: len(i["waveform"]) > i["n_samples"]))
+
+
+# ---- index_of_fraction: the defining formula of the area-fraction index -------------------------------------------------------
+def _iof_native(i):
+    strax = _strax()
+    p = np.zeros(1, dtype=strax.peak_dtype(n_channels=2, n_sum_wv_samples=8))
+    w = i["waveform"]
+    p["length"], p["dt"], p["area"] = len(w), 1, sum(w)
+    p["data"][0, : len(w)] = w
+    return strax.index_of_fraction(p, np.array(i["fractions"], dtype=np.float64))[0]
+
+
+def _iof_spec(w, f):
+    """Fractional index at which the cumulative area first REACHES the fraction f of the total: the first sample i with
+    cum(i+1) >= f * total, entered as far as needed ((f*total - cum(i)) / w[i]; at its start if the sample is empty)."""
+    tot = float(sum(w))
+    cum = 0.0
+    for i, x in enumerate(w):
+        if cum + x >= f * tot - 1e-9:
+            return i + ((f * tot - cum) / x if x != 0 else 0.0)
+        cum += x
+    return float(len(w))
+
+
+def _iof_ens(S, a, r):
+    w, fr = list(_unw(a.waveform)), list(_unw(a.fractions))
+    r = np.asarray(_unw(r), dtype=np.float64)
+    want = [float(len(w)) if f == 1 and k == len(fr) - 1 else _iof_spec(w, f) for k, f in enumerate(fr)]
+    return [(f"the index of each area fraction is where the cumulative area first reaches it, linearly inside the sample "
+             f"[got {r.tolist()}, defined {want}]", bool(np.allclose(r, want, atol=1e-4)))]
+
+
+def _iof_gen(rng, tier):
+    fr = [0.0, 0.25, 0.5, 0.75, 1.0]
+    for n in range(1, 5):
+        for w in itertools.product((0, 1, 2), repeat=n):
+            if sum(w) > 0:
+                yield dict(waveform=list(w), fractions=fr)
+                yield dict(waveform=list(w), fractions=[0.5])
+    for _ in range(200 if tier == "quick" else 5000):
+        # random part: the total is made a power of two and the fractions are binary-exact, so that every partial sum is exact in
+        # floating point and "reaches the fraction exactly at a sample boundary" is decided the same way by the code and the formula
+        w = [rng.choice((0, 0, 1, 2, 4)) for _k in range(rng.randint(1, 7))]
+        tot = sum(w)
+        target = 1
+        while target < max(tot, 1):
+            target *= 2
+        w.insert(rng.randint(0, len(w)), target - tot) if target > tot else None
+        if sum(w) > 0 and len(w) <= 8:
+            yield dict(waveform=w, fractions=sorted(rng.choice((0.0, 0.125, 0.25, 0.5, 0.75, 0.875, 1.0)) for _k in range(rng.randint(1, 4))))
+
+
+index_of_fraction = Contract(
+    FPP, "index_of_fraction", params=dict(waveform="V", fractions="V"), ensures=_iof_ens, raises={},
+    harness=Harness(native=_iof_native, gen=_iof_gen,
+                    scope="all waveforms over {0,1,2} of 1..4 samples with positive area x fractions {0,.25,.5,.75,1} and {.5} + random "
+                          "waveforms of <=8 samples whose total is a power of two with up to 4 sorted binary-exact fractions (all partial sums exact)",
+                    nontrivial=lambda i: len(i["waveform"]) >= 2))
